@@ -601,11 +601,10 @@ def kill_subproc(sub):
                 p.terminate()
         for p in sub.processes:
             p.join(2)
-        for r in sub.remotes:
-            try:
-                r.close()
-            except Exception:
-                pass
+            if p.is_alive():
+                p.kill()
+        # the pipes are NOT closed here: a helper thread of call_with_timeout may still sit in recv()/send() on one of
+        # them (it ends with EOFError / BrokenPipeError once every worker is gone); closing under it crashes CPython
     except Exception:
         pass
 
@@ -798,7 +797,7 @@ def run_case(ctx, case):
     finally:
         if sub is not None:
             try:
-                call_with_timeout(sub.close, 5.0)
+                call_with_timeout(sub.close, 5.0 if _HANGS[0] == 0 else 0.5)
             except BaseException:  # noqa
                 pass
             kill_subproc(sub)  # never leave a worker process behind, whatever close() did
